@@ -213,6 +213,7 @@ type parseObs struct {
 	bytes     map[string][]byte     // the slices returned by the six slice accessors
 	views     map[string]viewObs    // observed views: Ether IP4 IP6 UDP TCP + payload views
 	vbytes    map[string][]byte
+	fr        packet.Frame
 	srcMAC    []byte // Frame.SrcAddr.MAC / DstAddr.MAC as returned (C16: must alias p[6:12] / p[0:6])
 	dstMAC    []byte
 }
@@ -266,6 +267,7 @@ func (w *worker) observeFrame(v *vector, buf []byte, fr packet.Frame, err error,
 		s, _ := whole.sliceText(unsafe.Pointer(&m[0]), len(m))
 		return s
 	}
+	o.fr = fr
 	o.srcMAC, o.dstMAC = fr.SrcAddr.MAC, fr.DstAddr.MAC
 	o.addr["SrcMAC"] = mac(fr.SrcAddr.MAC)
 	o.addr["DstMAC"] = mac(fr.DstAddr.MAC)
@@ -715,6 +717,7 @@ func (w *worker) runParse(v *vector) {
 		}
 		// ---- C16: aliasing at the specification's offsets, writes visible both ways ----
 		w.checkAlias(v, o, obs[1], bufs[1].b, data)
+		w.checkRefetch(v, o, obs[1], bufs[1].b, data)
 		if k == 0 && v.ID%500 == 0 {
 			w.emit(rec{T: "sample", ID: v.ID, K: k, Hex: hex.EncodeToString(data), Got: fmt.Sprintf("err=%v id=%d %v", a.err, a.id, a.addr)})
 		}
@@ -869,6 +872,82 @@ func (w *worker) checkAlias(v *vector, o *outcome, ob parseObs, buf []byte, data
 			w.mm(v, "C16", "write-buffer", "Frame", name, "visible in view", "not visible", data)
 		}
 		buf[last] ^= 0xff
+	}
+}
+
+// refetch returns pointer and length of the six slice accessors of a Frame, fetched now.
+func refetch(fr packet.Frame) (out map[string][2]uintptr, panicked string) {
+	out = map[string][2]uintptr{}
+	defer func() {
+		if e := recover(); e != nil {
+			panicked = fmt.Sprint(e)
+		}
+	}()
+	put := func(name string, b []byte) { out[name] = [2]uintptr{dataPtr(b), uintptr(len(b))} }
+	put("Ether", fr.Ether())
+	put("IP4", fr.IP4())
+	put("IP6", fr.IP6())
+	put("UDP", fr.UDP())
+	put("TCP", fr.TCP())
+	put("Payload", fr.Payload())
+	return out, ""
+}
+
+// checkRefetch (C16): the views alias the buffer at the offsets Parse DECODED.  Every header field Parse used
+// for classification (spec: ClassifyingFields) is overwritten after the parse, alternately through the buffer and
+// through the view that contains it; every accessor re-fetched from the same Frame must return the same pointer
+// and length as before the write (only content may change).  The bytes are restored afterwards.
+func (w *worker) checkRefetch(v *vector, o *outcome, ob parseObs, buf []byte, data []byte) {
+	if ob.panicText != "" || ob.err {
+		return
+	}
+	begin("Frame accessors re-fetched after a header write")
+	defer end()
+	before, p := refetch(ob.fr)
+	if p != "" {
+		return // reported by C01 already
+	}
+	viewOff := map[string]int{"Ether": 0, "IP4": o.IP4, "IP6": o.IP6, "UDP": o.UDP, "TCP": o.TCP}
+	if o.ID == 3 {
+		viewOff["ARP"] = o.Pay
+	}
+	if o.ID == 6 || o.ID == 7 {
+		viewOff["ICMP"] = o.Pay
+	}
+	for n, cf := range w.tab.classify {
+		base, ok := viewOff[cf[0]]
+		r := w.tab.row(cf[0], cf[1])
+		if !ok || r == nil || (cf[0] != "Ether" && base == 0) || base+r.Off+r.N > len(buf) {
+			continue
+		}
+		target := buf[base+r.Off : base+r.Off+r.N]
+		how := "through the buffer"
+		if vb := ob.bytes[cf[0]]; n%2 == 1 && len(vb) >= r.Off+r.N {
+			target, how = vb[r.Off:r.Off+r.N], "through the "+cf[0]+" view"
+		}
+		saved := append([]byte{}, target...)
+		for _, pat := range []byte{0xff, 0x00, 0x5a} {
+			for i := range target {
+				target[i] = saved[i] ^ pat
+				if pat == 0x00 {
+					target[i] = 0
+				}
+			}
+			after, p := refetch(ob.fr)
+			w.cnt["refetch_checks"]++
+			w.nt |= 4
+			if p != "" {
+				w.mm(v, "C16", "refetch-panic", "Frame", cf[0]+"."+cf[1], "accessors return the views Parse decoded", "PANIC: "+p+" after "+cf[0]+"."+cf[1]+" was overwritten "+how, data)
+				break
+			}
+			for _, name := range frameSlices {
+				if after[name] != before[name] {
+					w.mm(v, "C16", "refetch", "Frame", name, fmt.Sprintf("the same view as before the write (offset %d, len %d)", int64(before[name][0])-int64(dataPtr(buf)), before[name][1]),
+						fmt.Sprintf("offset %d, len %d after %s.%s was overwritten %s", int64(after[name][0])-int64(dataPtr(buf)), after[name][1], cf[0], cf[1], how), data)
+				}
+			}
+		}
+		copy(target, saved)
 	}
 }
 
